@@ -16,21 +16,27 @@ const (
 	kPlain = iota
 	kLock
 	kCatch
+	kBlock
 )
 
 type mframe struct {
 	kind int
+	tb   bool // kBlock: tagbody
+	b    int  // kBlock: name / tag
 	m    int
 	ops  []Op
 	id   int // identifies the body this frame runs (for state keys)
 }
 
 type mrt struct {
-	stk []mframe // top LAST (cheap push/pop)
-	unw bool
-	got mval
-	acc int64
-	lp  int // entries of the routine's log produced so far
+	stk   []mframe // top LAST (cheap push/pop)
+	unw   bool
+	ext   bool // an exit marker (extTB, extB) is travelling up
+	extTB bool
+	extB  int
+	got   mval
+	acc   int64
+	lp    int // entries of the routine's log produced so far
 }
 
 type mentry struct {
@@ -215,6 +221,13 @@ func (s *mstate) key() string {
 		if r.unw {
 			b.WriteByte('u')
 		}
+		if r.ext {
+			b.WriteByte('e')
+			if r.extTB {
+				b.WriteByte('t')
+			}
+			b.WriteString(strconv.Itoa(r.extB))
+		}
 		if r.got.null {
 			b.WriteByte('n')
 		} else {
@@ -313,6 +326,45 @@ func (s *mstate) step(i, k int, g *guide, ids map[*Op]int) *mstate {
 			n.mus[top.m] = -1
 		}
 		return n
+	}
+	if r0.ext {
+		// the marker is the value of the form just evaluated in the top frame
+		weak := func() *mstate {
+			if len(top.ops) == 0 {
+				pop()
+				if top.kind == kLock {
+					n.mus[top.m] = -1
+				}
+			} else {
+				r.ext = false
+			}
+			return n
+		}
+		switch top.kind {
+		case kPlain:
+			pop()
+			return n
+		case kLock, kCatch:
+			return weak()
+		case kBlock:
+			if !top.tb { // block
+				if r0.extTB {
+					return weak()
+				}
+				pop()
+				if top.b == r0.extB {
+					r.ext = false
+				}
+				return n
+			}
+			// tagbody
+			if r0.extTB {
+				pop()
+			}
+			r.ext = false
+			return n
+		}
+		return nil
 	}
 	if len(top.ops) == 0 {
 		pop()
@@ -444,6 +496,24 @@ func (s *mstate) step(i, k int, g *guide, ids map[*Op]int) *mstate {
 		adv()
 		r.stk = append(r.stk, mframe{kind: kCatch, ops: o.Body, id: ids[o]})
 		return n
+	case "block":
+		adv()
+		r.stk = append(r.stk, mframe{kind: kBlock, tb: o.TB, b: o.B, ops: o.Body, id: ids[o]})
+		return n
+	case "exit":
+		adv()
+		found := false
+		for _, f := range r.stk {
+			if f.kind == kBlock && ((o.TB && f.tb) || (!o.TB && !f.tb && f.b == o.B)) {
+				found = true
+			}
+		}
+		if found {
+			r.ext, r.extTB, r.extB = true, o.TB, o.B
+		} else {
+			r.unw = true
+		}
+		return n
 	}
 	return nil
 }
@@ -451,7 +521,7 @@ func (s *mstate) step(i, k int, g *guide, ids map[*Op]int) *mstate {
 // nextOp returns the operation routine i would execute next (nil: frame pop, unwinding step or finished)
 func (s *mstate) nextOp(i int) *Op {
 	r := &s.rs[i]
-	if len(r.stk) == 0 || r.unw {
+	if len(r.stk) == 0 || r.unw || r.ext {
 		return nil
 	}
 	top := r.stk[len(r.stk)-1]
@@ -486,7 +556,7 @@ func numberOps(p *Prog) map[*Op]int {
 	walk = func(ops []Op) {
 		for i := range ops {
 			o := &ops[i]
-			if o.Kind == "lock" || o.Kind == "catch" {
+			if o.Kind == "lock" || o.Kind == "catch" || o.Kind == "block" {
 				ids[o] = len(ids) + 1
 				walk(o.Body)
 			}
